@@ -974,8 +974,30 @@ def run(ctx, anchors=None):
                  "%s %s is live across the recursive call in %s: every level of recursion adds a stack array whose size is taken from the input" %
                  ((vla[0][2].get("ty"), vla[0][2]["n"], vla[0][0].name) if vla else ("", "", "")))
         if kind == "guard":
+            # the limit must sit in a function every cycle passes through (removing it leaves the rest acyclic) and dominate
+            # every call of that function back into the cycle
+            def acyclic_without(fid_):
+                rest = [x for x in comp if x != fid_]
+                color = {}
+
+                def dfs(v):
+                    color[v] = 1
+                    for w in graph.get(v, ()):
+                        if w in rest:
+                            if color.get(w) == 1:
+                                return False
+                            if w not in color and not dfs(w):
+                                return False
+                    color[v] = 2
+                    return True
+                return all(dfs(v) for v in rest if v not in color)
             guards = []
             for f_ in fs:
+                if not acyclic_without(f_.id):
+                    continue
+                fcfg_ = f_.cfg()
+                rec_calls = [x for x in f_.nodes() if (astq.is_call(x) and x.get("cid") and any(g_.id in ids for g_ in prog.resolve(x["cid"]))) or
+                             (x.get("k") in ("call", "mcall") and x.get("n") in ("emplace_back", "emplace") and x.get("ext"))]
                 for n in f_.nodes():
                     if n["k"] != "if":
                         continue
@@ -990,14 +1012,17 @@ def run(ctx, anchors=None):
                     while r_.get("k") in ("cast", "paren"):
                         r_ = r_["e"]
                     var, con = (l_, r_) if c_["op"] in (">", ">=") else (r_, l_)
-                    if var.get("k") == "ref" and var.get("dk") == "local" and astq.const_value(con) is not None and astq.const_value(con) > 1:
+                    if var.get("k") == "ref" and var.get("dk") in ("local", "global") and astq.const_value(con) is not None and astq.const_value(con) > 1:
                         leaves = any((x["k"] == "call" and x.get("n") in ("exit", "abort", "_exit")) or x["k"] in ("return", "throw") for x in walk(n["then"]))
-                        upd = any((x["k"] in ("cassign",) and x["lhs"].get("d") == var.get("d")) or (x["k"] == "un" and x.get("op") in ("++",) and x["e"].get("d") == var.get("d")) for x in f_.nodes())
-                        if leaves and upd:
+                        upd = any((x["k"] in ("cassign",) and x["lhs"].get("d") == var.get("d")) or (x["k"] == "un" and x.get("op") in ("++",) and x["e"].get("d") == var.get("d")) or
+                                  (x["k"] in ("call", "mcall", "ctor") and any(a_ is not None and a_.get("k") == "ref" and a_.get("d") == var.get("d") and i_ < len(x.get("pk") or "") and (x.get("pk") or "")[i_] == "r"
+                                                                                 for i_, a_ in enumerate(x.get("args", [])))) for x in f_.nodes())
+                        if leaves and upd and all(fcfg_.dominates(n["cond"], rc) for rc in rec_calls):
                             guards.append((f_, n, astq.const_value(con)))
             ctx.inst(bool(guards), "R15.13", key + ":nesting-limit", guards[0][0].loc(guards[0][1]) if guards else fs[0].loc(),
-                     "the cycle {%s} rejects when a local counter exceeds %s (%s)" % (", ".join(sorted(names)), guards[0][2] if guards else "?", why),
-                     "the cycle {%s} recurses once per nesting level of its input and nothing limits the nesting: `btcc '[[[[...1500 deep...]]]]'` overflows the stack" % ", ".join(sorted(names)))
+                     "every cycle of {%s} passes through %s, which rejects when its depth counter exceeds %s before it calls back into the cycle (%s)" % (", ".join(sorted(names)), guards[0][0].name if guards else "?", guards[0][2] if guards else "?", why),
+                     "the cycle {%s} recurses once per nesting level of its input, and no function that every cycle passes through limits the depth before calling back into it: "
+                     "`btcc 'int(int(int( ...15000 deep... )))'` overflows the stack" % ", ".join(sorted(names)))
         else:
             ctx.ok("R15.13", key + ":reviewed", fs[0].loc(), why)
     ctx.floor("R15.13", len(sccs), 3, "recursion cycles in the call graph")
@@ -1454,9 +1479,10 @@ def callers_establish(fb, prog, ctor, a, K):
 MUTANTS = [
     dict(name="tap-ignores-failed-configuration", file="tap.cpp", find="        if (!instance.configure_tx_txin()) abort(", replace="        instance.configure_tx_txin(); if (false) abort(", expect=["R15.16:status-used:configure_tx_txin@main"]),
     dict(name="sighash-for-any-input-count", file="instance.cpp", find="    if (tx->vin.size() != 1) {\n        fprintf(stderr, \"error: a signature hash can only be computed", replace="    if (false) {\n        fprintf(stderr, \"error: a signature hash can only be computed", expect=["R15.7:size-relation=Init@Instance::calc_sighash"]),
-    dict(name="listing-iterator-carried-over", file="functions.cpp", find="        if (siter > 0) {\n            if (headers[siter] != \"\") {", replace="        if (begun) {\n            if (headers[siter] != \"\") {", expect=["R15.15:iterator-of-the-same-script@svprintscripts"]),
+    dict(name="listing-iterator-carried-over", file="functions.cpp", find="        if (siter > 0) {\n            if (headers[siter] != \"\") {", replace="        if (siter > 0 && !l.empty()) {\n            if (headers[siter] != \"\") {", expect=["R15.15:iterator-of-the-same-script@svprintscripts"]),
     dict(name="subscript-beyond-accepted-length", file="value.h", find="        if (data.size() != 25) {", replace="        if (data.size() != 25 && data.size() != 23) {", expect=["R15.14:subscript-within-decided-size@Value::do_spk_to_addr"]),
-    dict(name="nesting-limit-removed", file="value.h", find="                    if (depth > MAX_BRACKET_DEPTH) {\n                        fprintf(stderr, \"parse error, [brackets nested more than %zu deep\\n\", MAX_BRACKET_DEPTH);\n                        exit(1);\n                    }\n", replace="", expect=["R15.13:cycle=Value::Value+Value::parse_args:nesting-limit"]),
+    dict(name="nesting-limit-removed", file="value.h", find="        if (nesting > MAX_BRACKET_DEPTH) {\n            fprintf(stderr, \"parse error, expression nested more than %zu deep\\n\", MAX_BRACKET_DEPTH);\n            exit(1);\n        }\n", replace="", expect=["R15.13:cycle=Value::Value+Value::parse_args:nesting-limit"]),
+    dict(name="nesting-limit-only-for-brackets", file="value.h", find="        if (nesting > MAX_BRACKET_DEPTH) {\n", replace="        if (nesting > MAX_BRACKET_DEPTH && v[0] == '[') {\n", expect=["R15.13:cycle=Value::Value+Value::parse_args:nesting-limit"]),
     dict(name="token-array-on-the-stack", file="value.h", find="        std::vector<char*> args_ptr;\n", replace="        char* args_ptr_[args_len + 1];\n        std::vector<char*> args_ptr;\n        args_ptr_[0] = nullptr;\n", expect=["R15.13:cycle=Value::Value+Value::parse_args:no-vla-across-recursion"]),
     dict(name="new-recursion-unreviewed", file="instance.cpp", find="bool Instance::rewind() {\n    if (env->pc == env->script.begin()) {\n        return false;\n    }", replace="bool Instance::rewind() {\n    if (env->pc == env->script.begin()) {\n        return false;\n    }\n    if (env->done && env->curr_op_seq > 100000) return rewind();", expect=["R15.13:cycle=Instance::rewind"]),
     dict(name="addrprefix-unchecked", file="tap.cpp", find="ToLower(ca.m['p'])", replace="ca.m['p']", expect=["R15.7:char-precond=Encode(bech32_hrp)"]),
